@@ -11,6 +11,7 @@ pub mod c13;
 pub mod crash;
 pub mod entries;
 pub mod c14;
+pub mod c15;
 pub mod c19;
 
 use crate::engine::{Run, Verdict};
@@ -31,6 +32,7 @@ pub fn registry(id: &str) -> Option<(RunFn, ReplayFn)> {
         "C12" => Some((c12::run, c12::replay)),
         "C13" => Some((c13::run, c13::replay)),
         "C14" => Some((c14::run, c14::replay)),
+        "C15" => Some((c15::run, c15::replay)),
         "C19" => Some((c19::run, c19::replay)),
         _ => None,
     }
